@@ -296,3 +296,14 @@ Example C02_program_map_is_source_inhabited :
   programMap_existsUnlocked lm_get (programMap_unsetUnlocked lm_del m 4096) 4096 = false /\
   programMap_existsUnlocked lm_get (programMap_unsetUnlocked lm_del m 4096) 256 = true.
 Proof. exact program_map_demux_example. Qed.
+
+(* ---- the completeness test behind the early flush IS the source (the statement of C03_psi_complete_is_source, quoted
+   here because C02_early_flush and the data-level theorems rest on is_psi_complete: a change to isPSIComplete — a
+   "fast path", a bound on section_length — changes Gen/DemuxGen.v and this proof stops checking) ---- *)
+Require Import Base.Bits Proofs.DemuxGenEqPsi.
+Theorem C02_psi_complete_is_source : forall (W : Type) (get : W -> Z -> outcome (list Z * W)),
+  (forall w n, 0 <= n -> exists bs w', get w n = Done (bs, w') /\ Z.of_nat (length bs) = n) ->
+  forall ps w, Base.Bits.bytes_ok (concat_payload ps) ->
+  exists w', isPSIComplete W get ps (S (length (concat_payload ps))) w = Done (is_psi_complete ps, w').
+Proof. exact psi_complete_is_generated. Qed.
+Print Assumptions C02_psi_complete_is_source.
